@@ -364,7 +364,7 @@ type vfC13Server struct {
 }
 
 func vfC13StartServer(dir string) *vfC13Server {
-	in, err := vfNewLeader(vfInstCfg{Dir: dir, Manual: false, NDb: 1, DBConcurrent: 2, FastKeys: 64})
+	in, err := vfNewLeader(vfInstCfg{Dir: dir, Manual: true, NDb: 1, DBConcurrent: 2, FastKeys: 64})
 	if err != nil {
 		panic("vf: cannot start leader: " + err.Error())
 	}
@@ -511,9 +511,25 @@ func (cn *vfC13Canary) textRound() error {
 
 func vfC13Child(env *vfEnv) {
 	spec := os.Getenv("VERIF_C13_BATCH")
-	parts := strings.Split(spec, ":")
-	from, _ := strconv.Atoi(parts[0])
-	to, _ := strconv.Atoi(parts[1])
+	var list []int
+	if strings.HasPrefix(spec, "list:") {
+		for _, x := range strings.Split(spec[5:], ",") {
+			if v, err := strconv.Atoi(x); err == nil {
+				list = append(list, v)
+			}
+		}
+	} else {
+		parts := strings.Split(spec, ":")
+		from, _ := strconv.Atoi(parts[0])
+		to, _ := strconv.Atoi(parts[1])
+		for i := from; i < to; i++ {
+			list = append(list, i)
+		}
+	}
+	from := 0
+	if len(list) > 0 {
+		from = list[0]
+	}
 	part := vfNewPart()
 	part.known = vfLoadKnown(env)
 	s := vfC13StartServer(vfScratchDir(env, "c13"))
@@ -526,7 +542,29 @@ func vfC13Child(env *vfEnv) {
 	}
 	prog := env.PartFile + ".progress"
 	inputLog := env.PartFile + ".input"
-	for i := from; i < to && len(part.Harness) == 0; i++ {
+	// databases created by the inputs get the virtual clock too
+	syncClock := func() {
+		for d, db := range s.in.slock.dbs {
+			if db == nil {
+				continue
+			}
+			known := false
+			for _, k := range s.in.dbs {
+				if k == db {
+					known = true
+				}
+			}
+			if !known {
+				_ = d
+				s.in.adoptDB(db)
+			}
+		}
+	}
+	for li, i := range list {
+		if len(part.Harness) != 0 {
+			break
+		}
+		last := li == len(list)-1
 		in := vfC13Gen(env.Seed, i)
 		// log before sending
 		var hb strings.Builder
@@ -559,17 +597,39 @@ func vfC13Child(env *vfEnv) {
 		if in.total() >= 64 || len(in.Chunks) > 1 {
 			part.Mark("nontrivial", h)
 		}
-		if i < from+2 {
+		if li < 2 {
 			part.Sample(4, map[string]interface{}{"input": i, "kind": in.Kind, "chunks": len(in.Chunks), "hex": vfTrunc(hb.String(), 300)})
 		}
-		if (i-from)%20 == 19 || i == to-1 {
+		if os.Getenv("VERIF_C13_CENSUS") != "" {
+			vfCensusVerbose = os.Getenv("VERIF_C13_CENSUS") == "2"
+			time.Sleep(5 * time.Millisecond)
+			for _, db := range s.in.slock.dbs {
+				if db == nil {
+					continue
+				}
+				cs := vfTakeCensus(db)
+				for _, e := range cs.Errors {
+					fmt.Printf("CENSUS after input %d db%d: %s\n", i, db.dbId, e)
+				}
+				for _, k := range cs.Keys {
+					fmt.Printf("  state after input %d: db%d key=..%x locked=%d holds=%d waiters=%d ref=%d\n", i, k.Db, k.Key[13:], k.Locked, len(k.Holds), len(k.Waiters), k.RefCount)
+				}
+			}
+		}
+		// the virtual clock advances at input-determined points (so a subset of
+		// the inputs replays with the same clock behaviour per input)
+		syncClock()
+		if tr := vfCaseRand(env.Seed, "C13tick", i); tr.Chance(30) {
+			s.in.tick(1, tr)
+		}
+		if li%20 == 19 || last {
 			if err := cn.binRound(); err != nil {
-				rp := vfWriteReplay(env, fmt.Sprintf("canary-input%d.json", i), map[string]interface{}{"input_range": []int{i - 19, i}, "seed": env.Seed, "error": err.Error()})
+				rp := vfWriteReplay(env, fmt.Sprintf("canary-input%d.json", i), map[string]interface{}{"input": i, "batch_from": from, "seed": env.Seed, "error": err.Error()})
 				part.Violate(vfViolation{Prop: "C13", Clause: "canary", Detail: fmt.Sprintf("after inputs up to %d another (canary) connection no longer gets correct replies: %v", i, err), Case: i, Replay: rp})
 				break
 			}
 			if err := cn.textRound(); err != nil {
-				rp := vfWriteReplay(env, fmt.Sprintf("canary-input%d.json", i), map[string]interface{}{"input_range": []int{i - 19, i}, "seed": env.Seed, "error": err.Error()})
+				rp := vfWriteReplay(env, fmt.Sprintf("canary-input%d.json", i), map[string]interface{}{"input": i, "batch_from": from, "seed": env.Seed, "error": err.Error()})
 				part.Violate(vfViolation{Prop: "C13", Clause: "canary-text", Detail: fmt.Sprintf("after inputs up to %d the text canary connection no longer gets correct replies: %v", i, err), Case: i, Replay: rp})
 				break
 			}
@@ -591,6 +651,10 @@ func TestVerif_C13(t *testing.T) {
 		return
 	}
 	start := time.Now()
+	if env.Replay != "" {
+		vfC13Reduce(env)
+		return
+	}
 	n := env.N(20000, 2000000)
 	batch := 400
 	type job struct{ from, to int }
@@ -640,7 +704,7 @@ func TestVerif_C13(t *testing.T) {
 				crashSigs[sig]++
 				var rp string
 				if crashSigs[sig] <= 3 {
-					rp = vfWriteReplay(env, fmt.Sprintf("crash-input%d.json", caseNo), map[string]interface{}{"input": caseNo, "seed": env.Seed, "tier": env.Tier, "sent": vfTrunc(string(inputHex), 20000), "crash": vfTrunc(vfPanicHead(full), 5000)})
+					rp = vfWriteReplay(env, fmt.Sprintf("crash-input%d.json", caseNo), map[string]interface{}{"input": caseNo, "batch_from": j.from, "seed": env.Seed, "tier": env.Tier, "sent": vfTrunc(string(inputHex), 20000), "crash": vfTrunc(vfPanicHead(full), 5000)})
 				}
 				merged.Violate(vfViolation{Prop: "C13", Clause: "crash", Detail: fmt.Sprintf("input %d crashed the server process: %s", caseNo, sig), Case: caseNo, Replay: rp, Sig: "crash:" + sig})
 				merged.Add("crashes", 1)
@@ -686,3 +750,105 @@ func TestVerif_C13(t *testing.T) {
 // the first goroutine printed after the panic line is the panicking one.
 func vfCrashInRepoAny(out string) bool { return vfCrashInRepo(out) }
 func vfCrashSigAny(out string) string  { return vfCrashSig(out) }
+
+
+// vfC13RunList runs the listed inputs in a child; returns the crash signature
+// ("" when the child survived) and the output.
+func vfC13RunList(env *vfEnv, list []int, tag string) (string, string) {
+	partFile := filepath.Join(env.Scratch, "c13-reduce-"+tag+".json")
+	_ = os.Remove(partFile)
+	outFile := partFile + ".out"
+	out, _ := os.Create(outFile)
+	strs := make([]string, len(list))
+	for i, v := range list {
+		strs[i] = strconv.Itoa(v)
+	}
+	cmd := exec.Command(os.Args[0], "-test.run", "^TestVerif_C13$", "-test.timeout", "0")
+	sc := filepath.Join(env.Scratch, "c13reduce"+tag)
+	_ = os.MkdirAll(sc, 0755)
+	cmd.Env = append(os.Environ(), "VERIF_C13_BATCH=list:"+strings.Join(strs, ","), "VERIF_PART="+partFile, "VERIF_SCRATCH="+sc, "GOTRACEBACK=all", "VERIF_REPLAY=", fmt.Sprintf("VERIF_SEED=%d", env.Seed))
+	cmd.Stdout, cmd.Stderr = out, out
+	_ = cmd.Run()
+	_ = out.Close()
+	ob, _ := os.ReadFile(outFile)
+	if _, err := os.Stat(partFile); err == nil {
+		return "", string(ob)
+	}
+	return vfCrashSig(string(ob)), string(ob)
+}
+
+// vfC13Reduce: delta-debugging of a crashing batch down to a minimal list of
+// inputs (replay mode).
+func vfC13Reduce(env *vfEnv) {
+	var doc struct {
+		Input     int   `json:"input"`
+		BatchFrom int   `json:"batch_from"`
+		Seed      int64 `json:"seed"`
+	}
+	b, err := os.ReadFile(env.Replay)
+	if err != nil || vfUnJSON(b, &doc) != nil {
+		fmt.Println("HARNESS-ERROR: cannot read replay")
+		fmt.Println("VERDICT-EXIT 2")
+		return
+	}
+	env.Seed = doc.Seed
+	list := []int{}
+	for i := doc.BatchFrom; i <= doc.Input; i++ {
+		list = append(list, i)
+	}
+	want, _ := vfC13RunList(env, list, "full")
+	if want == "" {
+		fmt.Printf("NOTE: the batch %d..%d does not crash on this tree\n", doc.BatchFrom, doc.Input)
+		fmt.Println("VERDICT-EXIT 0")
+		return
+	}
+	fmt.Printf("NOTE: reproducing crash %s with %d inputs; reducing\n", want, len(list))
+	crashes := func(l []int, tag string) bool {
+		sig, _ := vfC13RunList(env, l, tag)
+		return sig == want
+	}
+	n := 2
+	for len(list) >= 2 {
+		chunk := (len(list) + n - 1) / n
+		reduced := false
+		for i := 0; i < len(list); i += chunk {
+			// try removing list[i:i+chunk]
+			cand := append(append([]int{}, list[:i]...), list[minInt(i+chunk, len(list)):]...)
+			if len(cand) > 0 && crashes(cand, "r") {
+				list = cand
+				if n > 2 {
+					n--
+				}
+				reduced = true
+				break
+			}
+		}
+		if !reduced {
+			if chunk == 1 {
+				break
+			}
+			n *= 2
+			if n > len(list) {
+				n = len(list)
+			}
+		}
+	}
+	_, outp := vfC13RunList(env, list, "final")
+	fmt.Printf("NOTE: minimal crashing input list (%d): %v\n", len(list), list)
+	for _, i := range list {
+		in := vfC13Gen(env.Seed, i)
+		for ci, c := range in.Chunks {
+			fmt.Printf("NOTE: input %d (%s) chunk %d: %s\n", i, in.Kind, ci, vfTrunc(hex.EncodeToString(c), 600))
+		}
+	}
+	fmt.Printf("NOTE: crash: %s\n", vfTrunc(strings.ReplaceAll(vfPanicHead(outp), "\n", " | "), 1500))
+	fmt.Printf("VIOLATION property=C13 replay=%s clause=crash detail=%q\n", env.Replay, want)
+	fmt.Println("VERDICT-EXIT 1")
+}
+
+func minInt(a, b int) int {
+	if a < b {
+		return a
+	}
+	return b
+}
